@@ -349,12 +349,20 @@ type ConcCase struct {
 	Workers int  `json:"workers"`
 	PerW    int  `json:"routes_per_worker"`
 	Txn     bool `json:"via_newroute_only"`
+	// Scoped: additional global middleware whose scope excludes route handlers (they never run for a route, but they are
+	// part of the router-wide list every new route starts from)
+	Scoped int `json:"scoped_globals,omitempty"`
 }
 
 func checkConcurrent(c *ConcCase) error {
 	var opts []fox.GlobalOption
-	for i := 0; i < c.Globals; i++ {
-		opts = append(opts, fox.WithMiddleware(tracer(fmt.Sprintf("g%d", i))))
+	for i := 0; i < max(c.Globals, c.Scoped); i++ {
+		if i < c.Scoped {
+			opts = append(opts, fox.WithMiddlewareFor(fox.NoRouteHandler|fox.NoMethodHandler, tracer(fmt.Sprintf("s%d", i))))
+		}
+		if i < c.Globals {
+			opts = append(opts, fox.WithMiddleware(tracer(fmt.Sprintf("g%d", i))))
+		}
 	}
 	f, err := fox.New(opts...)
 	if err != nil {
@@ -416,7 +424,7 @@ func checkConcurrent(c *ConcCase) error {
 
 func TestConcurrentCreation(t *testing.T) {
 	rapid.Check(t, func(t *rapid.T) {
-		c := &ConcCase{Globals: gen.IntR(t, 0, 7, "globals"), Workers: gen.IntR(t, 2, 8, "workers"), PerW: gen.IntR(t, 5, 60, "per"), Txn: gen.Chance(t, 1, 2, "newroute")}
+		c := &ConcCase{Globals: gen.IntR(t, 0, 7, "globals"), Workers: gen.IntR(t, 2, 8, "workers"), PerW: gen.IntR(t, 5, 60, "per"), Txn: gen.Chance(t, 1, 2, "newroute"), Scoped: gen.Pick(t, []int{0, 0, 1, 2, 5}, "scoped")}
 		stats.EvalN(c.Workers * c.PerW)
 		stats.Class(fmt.Sprintf("concurrent:globals=%d", c.Globals))
 		stats.NonTrivial(fmt.Sprintf("conc|%+v", *c))
